@@ -18,6 +18,8 @@ type c12 struct{}
 
 func init() { engine.Register(c12{}) }
 
+func (c12) PostGenerate(r *engine.Rand, sc *engine.Scenario) { chooseEnv(r, sc) }
+
 func (c12) ID() string { return "C12" }
 
 func (c12) Budget(tier string) int {
@@ -295,7 +297,7 @@ func (c12) Execute(sc *engine.Scenario) *engine.Result {
 		m.IRQ.Disable()
 		res.Probe("guest_program_runs")
 	} else {
-		m.Park()
+		park(sc, m, res)
 	}
 	var ref dmgref.Timer
 	start := uint16(0xabcc)
